@@ -167,6 +167,19 @@ Push(v) ==
     /\ UNCHANGED <<kind, ohas, oelems, ocap>>
     /\ CommitC(Entry("push", 0, v, "ok", 0))
 
+\* ---- push of an element of the same array (aliasing) -----------------------
+\* (array_push a (at a i)) on an array<struct> becomes
+\*     dyn_array_push_struct(a, dyn_array_get_struct(a, i), size)
+\* i.e. the source pointer points INTO the array's storage.  Prescribed: a copy of element i
+\* is appended.  Deviation DYN_PUSH_STRUCT_ALIAS: at length = capacity the unchanged code
+\* reallocs the storage first and then memcpy's from the pointer into the old block.
+PushOwn(i) ==
+    /\ Family = "dyn" /\ Running /\ IsStruct(kind) /\ InRange(i, Len(elems))
+    /\ elems' = Append(elems, elems[i + 1]) /\ cap' = PushCap
+    /\ UNCHANGED <<kind, sized, zb, ohas, oelems, ocap>>
+    /\ CommitC(EntryDev("push_own", i, elems[i + 1], "ok", 0,
+                        (IF Len(elems) >= cap THEN "DYN_PUSH_STRUCT_ALIAS" ELSE "")))
+
 \* ---- pop ---------------------------------------------------------------
 \* dyn: empty => *success = false ("fail"); a struct array that never saw a push has
 \* elem_size = 0 and dyn_array_pop_struct asserts elem_size == struct_size first => abort.
@@ -199,6 +212,15 @@ Set(i, v) ==
        THEN OnlyMain(SeqSet(elems, i, v), cap) /\ CommitC(Entry("set", i, v, "ok", 0))
        ELSE NoChange /\ CommitC(Entry("set", i, v, OorRes, 0))
 
+\* ---- x[i] = x[i] on a list: list_X_set(l, i, list_X_get(l, i)) ---------------
+\* Prescribed: nothing changes.  Deviation LIST_STRING_SET_ALIAS (List_string only; the
+\* history is generated for the class and replayed on both list types): list_string_set frees
+\* the old string and then strdup's the argument, which is that very string.
+SetOwn(i) ==
+    /\ Family = "list" /\ Running /\ InRange(i, Len(elems))
+    /\ NoChange
+    /\ CommitC(EntryDev("set_own", i, elems[i + 1], "ok", 0, "LIST_STRING_SET_ALIAS"))
+
 \* ---- remove: dyn_array_remove_at (all kinds assert) / list_X_remove ------
 Remove(i) ==
     /\ IsC /\ Running
@@ -226,25 +248,24 @@ Clear ==
 \* zb: a struct array that has never been pushed to has elem_size = 0 and data = NULL; the
 \* first growing reserve turns data into a zero-byte block (realloc(NULL, 0)), zb = TRUE.
 \* The next growing reserve calls realloc(block, 0), which frees the block and returns NULL:
-\* that is where the unchanged code goes wrong (deviation DYN_RESERVE_UNSIZED_STRUCT).
+\* that is where the code used to go wrong (finding F-dyn-reserve-unsized-struct, fixed in /repo:
+\* the deviation marker is gone, the state component stays so that the situation is still reached).
 Reserve(n) ==
     /\ Family = "dyn" /\ Running
     /\ n <= 65536          \* keeps the capacities of long random histories (2 * cap + 3, repeated) allocatable
     /\ elems' = elems /\ cap' = (IF n > cap THEN n ELSE cap)
     /\ zb' = (zb \/ (IsStruct(kind) /\ ~sized /\ n > cap))
     /\ UNCHANGED <<kind, sized, ohas, oelems, ocap>>
-    /\ CommitC(EntryDev("reserve", n, 0, "ok", 0,
-                        (IF IsStruct(kind) /\ ~sized /\ zb /\ n > cap THEN "DYN_RESERVE_UNSIZED_STRUCT" ELSE "")))
+    /\ CommitC(Entry("reserve", n, 0, "ok", 0))
 
 \* ---- clone (dyn only): dyn_array_new(kind) + reserve(len) + memcpy ---------
 \* A sequence is a sequence whatever its element kind, so the prescribed result is a
-\* copy for every kind (the code does not deliver that for struct arrays: finding).
+\* copy for every kind (struct arrays used to crash here: F-dyn-clone-struct, fixed in /repo).
 Clone ==
     /\ Family = "dyn" /\ Running
     /\ ohas' = TRUE /\ oelems' = elems /\ ocap' = Max(INITIAL_CAPACITY, Len(elems))
     /\ UNCHANGED <<kind, elems, cap, sized, zb>>
-    /\ CommitC(EntryDev("clone", 0, 0, "ok", 0,
-                        (IF IsStruct(kind) THEN "DYN_CLONE_STRUCT" ELSE "")))
+    /\ CommitC(Entry("clone", 0, 0, "ok", 0))
 
 \* ---- focus the clone (so that later steps mutate it and the original is observed)
 Swap ==
@@ -272,6 +293,8 @@ PushStructPromote(v) ==
 
 CNext ==
     \/ \E v \in Vals : Push(v)
+    \/ \E i \in IdxSet(Len(elems)) : PushOwn(i)
+    \/ \E i \in IdxSet(Len(elems)) : SetOwn(i)
     \/ Pop
     \/ \E i \in IdxSet(Len(elems)) : Get(i)
     \/ \E i \in IdxSet(Len(elems)), v \in Vals : Set(i, v)
@@ -366,9 +389,7 @@ SetField(s, f, o) ==
                 hz  == IF o # 0 /\ o \in hc.freed THEN 1 ELSE 0
             IN /\ SetHeap(h2)
                /\ UNCHANGED <<nalloc, okind, ext>>
-               /\ CommitG(EntryDev("setfield", s, o, "ok", 0,
-                              (IF hz = 1 THEN "GCSTRUCT_SETFIELD_RELEASE_FIRST" ELSE ""))
-                          @@ [k |-> "", f |-> f, hz |-> hz])
+               /\ CommitG(Entry("setfield", s, o, "ok", 0) @@ [k |-> "", f |-> f, hz |-> hz])
 
 \* gc_struct_get_field: out of range => message + NULL
 GetField(s, f) ==
@@ -455,6 +476,8 @@ SeqLaw ==
       LET e2 == hist'[Len(hist')].e IN
       CASE e2.res # "ok" -> elems' = elems /\ cap' = cap /\ kind' = kind
         [] e2.op = "push" -> n2 = n + 1 /\ elems'[n2] = e2.v /\ \A j \in 1..n : elems'[j] = elems[j]
+        [] e2.op = "push_own" -> n2 = n + 1 /\ elems'[n2] = elems[e2.i + 1] /\ \A j \in 1..n : elems'[j] = elems[j]
+        [] e2.op = "set_own" -> elems' = elems
         [] e2.op = "push_struct" -> elems' = <<e2.v>> /\ n = 0
         [] e2.op = "pop" -> n2 = n - 1 /\ e2.ret = elems[n] /\ \A j \in 1..n2 : elems'[j] = elems[j]
         [] e2.op = "get" -> elems' = elems /\ e2.ret = elems[e2.i + 1]
@@ -476,7 +499,7 @@ CapLaw ==
     (Family # "gc" /\ hist' # hist /\ status' # "done") =>
       LET e2 == hist'[Len(hist')].e IN
       \/ cap' = cap
-      \/ e2.op \in {"push", "insert"} /\ Len(elems) = cap
+      \/ e2.op \in {"push", "push_own", "insert"} /\ Len(elems) = cap
            /\ cap' = (IF cap = 0 THEN INITIAL_CAPACITY ELSE GROWTH * cap)
       \/ e2.op = "reserve" /\ cap' = e2.i /\ e2.i > cap
       \/ e2.op = "swap"
